@@ -250,7 +250,7 @@ emit_func_convert_and_escape = template(
                         target = target.replace('<', '&lt;')
                     if '>' in target:
                         target = target.replace('>', '&gt;')
-                    if quote is not None and quote in target:
+                    if quote and quote in target:
                         target = target.replace(quote, quote_entity)
 
         return target""")
